@@ -154,7 +154,7 @@ func runC12(c *Ctx) {
 	for _, r := range returnsOf(sample) {
 		got := t.Term(r.Results[0])
 		want := "(<WeightedDist>.minValue+<WeightedDist>.values[phi(Intn(len(<WeightedDist>.values))|<WeightedDist>.alias[Intn(len(<WeightedDist>.values))])])"
-		if got != want {
+		if !termEq(got, want) {
 			bad = "Sample returns " + got
 		}
 	}
@@ -264,7 +264,7 @@ func runC12(c *Ctx) {
 		// exactness of the range: r = Intn((max+1)-min) + min
 		tt := p.newTermer()
 		for _, r := range returnsOf(ir) {
-			if got := tt.Term(r.Results[0]); got != "(Intn((($1+1)-$0))+$0)" {
+			if got := tt.Term(r.Results[0]); !termEq(got, "(Intn((($1+1)-$0))+$0)") {
 				bad = "IntRange computes " + got + ", expected Intn((max+1)-min)+min (every value of [min,max] reachable)"
 			}
 		}
